@@ -33,6 +33,13 @@ const wktPath = "google/protobuf/empty.proto"
 // wktNode is the node whose a.proto imports a well-known type.
 const wktNode = 1
 
+// wktProvPath is the well-known-type path a module of the workspace can itself provide (a vendored copy, as
+// buf.build/protocolbuffers/wellknowntypes does): Spec.WKTProv. The import edges INTO that module are then
+// realised only by imports of this path.
+const wktProvPath = "google/protobuf/timestamp.proto"
+
+const wktProvContent = "syntax = \"proto3\";\npackage google.protobuf;\nmessage Timestamp {\n  int64 seconds = 1;\n  int32 nanos = 2;\n}\n"
+
 // Graph is the module-level import digraph: Adj[i][j] = some file of module i imports a file of module j.
 type Graph struct {
 	N   int
@@ -95,7 +102,10 @@ type RefDep struct {
 // so the file-level import graph is acyclic for every module-level digraph (module cycles without
 // file cycles), the module-level edges are exactly the digraph, and file closures go through
 // several modules.
-func moduleFiles(i int, outs []int, marker string, extraImports []string) map[string]string {
+//
+// wkt >= 0: node wkt additionally provides wktProvPath (only its marker-less version), and every edge
+// i->wkt is realised by an import of that path alone (no other file of module wkt is imported by i).
+func moduleFiles(i int, outs []int, marker string, extraImports []string, wkt int) map[string]string {
 	files := map[string]string{}
 	var a strings.Builder
 	fmt.Fprintf(&a, "syntax = \"proto3\";\npackage p%d;\n", i)
@@ -110,7 +120,10 @@ func moduleFiles(i int, outs []int, marker string, extraImports []string) map[st
 	fmt.Fprintf(&b, "syntax = \"proto3\";\npackage p%d;\nimport \"%s\";\n", i, aPath(i))
 	fields := []string{fmt.Sprintf(".p%d.A%d own = 1;", i, i)}
 	for _, j := range outs {
-		if j > i {
+		if j == wkt && j != i {
+			fmt.Fprintf(&b, "import \"%s\";\n", wktProvPath)
+			fields = append(fields, fmt.Sprintf(".google.protobuf.Timestamp f%d = %d;", j, j+2))
+		} else if j > i {
 			fmt.Fprintf(&b, "import \"%s\";\n", bPath(j))
 			fields = append(fields, fmt.Sprintf(".p%d.B%d f%d = %d;", j, j, j, j+2))
 		} else {
@@ -123,6 +136,9 @@ func moduleFiles(i int, outs []int, marker string, extraImports []string) map[st
 	}
 	fmt.Fprintf(&b, "message B%d { %s }\n", i, strings.Join(fields, " "))
 	files[bPath(i)] = b.String()
+	if i == wkt && marker == "" {
+		files[wktProvPath] = wktProvContent
+	}
 	if marker != "" {
 		files[fmt.Sprintf("p%d/%s.proto", i, marker)] = fmt.Sprintf("syntax = \"proto3\";\npackage p%d;\nmessage M%d {}\n", i, i)
 	}
@@ -130,7 +146,7 @@ func moduleFiles(i int, outs []int, marker string, extraImports []string) map[st
 }
 
 // fileImports is the reference file-level import relation of the effective module versions.
-func fileImports(g Graph) map[string][]string {
+func fileImports(g Graph, wkt int) map[string][]string {
 	m := map[string][]string{}
 	for i := 0; i < g.N; i++ {
 		if i == wktNode {
@@ -140,7 +156,9 @@ func fileImports(g Graph) map[string][]string {
 		}
 		imps := []string{aPath(i)}
 		for _, j := range g.outs(i) {
-			if j > i {
+			if j == wkt && j != i {
+				imps = append(imps, wktProvPath)
+			} else if j > i {
 				imps = append(imps, bPath(j))
 			} else {
 				imps = append(imps, aPath(j))
@@ -149,6 +167,7 @@ func fileImports(g Graph) map[string][]string {
 		m[bPath(i)] = imps
 	}
 	m[wktPath] = nil
+	m[wktProvPath] = nil
 	return m
 }
 
@@ -160,8 +179,8 @@ type RefFile struct {
 
 // refImage is the reference image content: the target files (not imports) plus the closure of their
 // imports (imports unless they are target files themselves), sorted by path.
-func refImage(g Graph, targetFiles []string) []RefFile {
-	imports := fileImports(g)
+func refImage(g Graph, wkt int, targetFiles []string) []RefFile {
+	imports := fileImports(g, wkt)
 	isTarget := map[string]bool{}
 	for _, f := range targetFiles {
 		isTarget[f] = true
